@@ -396,18 +396,23 @@ def buildDeref (kind : Kind) (s : ItemStruct) (e : Entry) (fields : List FieldE)
   | [f] => pure { mut_ := kind == .derefMut, name := s.name, generics := s.generics, wc := w, field := f }
   | _ => bail
 
+/-- the type `deref` / `deref_mut` return a reference to, spelled as the trait's associated type (a bare trait object as
+field type would otherwise get the reference's lifetime as its object lifetime, and `& dyn A + B` is not a type) -/
+def derefTargetToks : GToks := angle (["Self", "as"] +++ Kind.deref.path) +++ [pathM "Target"]
+
+/-- the signature of the generated method (everything between `fn` and the body) -/
+def DerefImpl.sig (d : DerefImpl) : GToks :=
+  if d.mut_ then [fnM "deref_mut"] +++ paren ["&", "mut", "self"] +++ ["->", "&", "mut"] +++ derefTargetToks
+  else [fnM "deref"] +++ paren ["&", "self"] +++ ["->", "&"] +++ derefTargetToks
+
 def DerefImpl.render (d : DerefImpl) : GToks :=
   let tr := if d.mut_ then Kind.derefMut.path else Kind.deref.path
   let ty := U d.field.field.ty.toks
   let content : GToks :=
     -- the return type is spelled as the trait's `Target` (a bare trait object as field type would
     -- otherwise get the reference's lifetime as its object lifetime)
-    let target : GToks := angle (["Self", "as"] +++ Kind.deref.path) +++ [pathM "Target"]
-    if d.mut_ then
-      [fnM "deref_mut"] +++ paren ["&", "mut", "self"] +++ ["->", "&", "mut"] +++ target +++ brace ["&", "mut", "self", ".", u d.field.member]
-    else
-      [typeM "Target", "="] +++ ty +++ [";", fnM "deref"] +++ paren ["&", "self"] +++ ["->", "&"] +++ target +++
-        brace ["&", "self", ".", u d.field.member]
+    if d.mut_ then d.sig +++ brace ["&", "mut", "self", ".", u d.field.member]
+    else [typeM "Target", "="] +++ ty +++ ";" ::: d.sig +++ brace ["&", "self", ".", u d.field.member]
   implItem autoDerived (U d.generics.implToks) tr (thisTyToks d.name d.generics)
     (d.wc.build fun t => U t.toks +++ ":" ::: tr) content
 
